@@ -1,7 +1,8 @@
 /-
   C17 — Expiry removes only event keys, wholly, and only after the TTL.
-  Model: `expiry` / `expireStep` (scanner.compactIfExpired, with the event key the worker remembers as alive:
-  `liveEventRawKey`) inside the worker loop `passLoop`, `timeoutRev`
+  Model: `expiry` / `expireStep` (scanner.compactIfExpired, with the event key the worker remembers as alive,
+  `liveEventRawKey`, and the one it removed as a whole, `goneEventRawKey`; the removal of an expired Event is ONE write
+  batch, `Act.expire`, since /repo 74218cc) inside the worker loop `passLoop`, `timeoutRev`
   (scanner.getTimeoutRevision over the compaction marks) with a model clock, `createHasTTL`
   (backend.create). The event-key tests are DEFINED through facts regenerated from the source
   (`Generated.eventsMatchScanner`, `eventsMatchTxn`, `eventsPrefixShape`, `eventsPattern`): if the code
@@ -17,7 +18,8 @@ def eventsDir (pfx : Bytes) : Bytes := pfx ++ [47, 101, 118, 101, 110, 116, 115,
 
 /-- Only event keys: whatever expiry removes lies in the events directory (engine without native TTL) — whatever
 the worker remembers. -/
-theorem only_event_keys (c : WCfg) (live : Bytes) (r : Rec) (acts : List Act) (h : expireStep c live r = some acts) :
+theorem only_event_keys (c : WCfg) (live gone : Bytes) (snap : List Rec) (r : Rec) (acts : List Act)
+    (h : expireStep c live gone snap r = some acts) :
     hasPrefix r.key c.eventsPfx = true ∧ c.eventsPfx ≠ [] := by
   unfold expireStep expiry at h
   rw [isEventKey_eq] at h
@@ -43,9 +45,9 @@ theorem ttl_only_for_event_keys (c : Cfg) (key : Bytes) :
 theorem lookalike_never_expires :
     let pfx : Bytes := [47, 114, 101, 103, 105, 115, 116, 114, 121]               -- "/registry"
     let key : Bytes := pfx ++ [47, 112, 111, 100, 115, 47, 101, 118, 101, 110, 116, 115, 47, 112, 49]  -- "/pods/events/p1"
-    ∀ (cw : WCfg) (live : Bytes) (r : Rec), cw.eventsPfx = eventsDir pfx → r.key = key →
-      expireStep cw live r = none := by
-  intro pfx key cw live r hpfx hkey
+    ∀ (cw : WCfg) (live gone : Bytes) (snap : List Rec) (r : Rec), cw.eventsPfx = eventsDir pfx → r.key = key →
+      expireStep cw live gone snap r = none := by
+  intro pfx key cw live gone snap r hpfx hkey
   have hk : hasPrefix r.key cw.eventsPfx = false := by
     rw [hpfx, hkey]; decide
   unfold expireStep expiry
@@ -70,87 +72,130 @@ theorem timeout_rev_old (c : Cfg) (marks : List (Nat × Nat)) (now : Nat) (T : N
       · rw [← h]; exact hmem.1
       · simpa using hmem.2
 
-/-- Never before the TTL: a record expires only if its (index) revision is at or below the timeout
-revision — i.e. at or below a revision that was already committed when a mark at least TTL old was
-taken; a key whose newest change is younger than that survives — and a version expires only if its key is not
-the one the worker remembers as alive. -/
-theorem young_survive (c : WCfg) (live : Bytes) (r : Rec) (acts : List Act) (h : expireStep c live r = some acts)
-    (hnp : acts ≠ [.panic]) :
-    (r.rev = 0 → fromBE (r.val.take 8) ≤ c.timeout) ∧ (r.rev ≠ 0 → r.rev ≤ c.timeout ∧ r.key ≠ live) := by
+/-- Never before the TTL: a revision record expires only if the revision it names is at or below the timeout
+revision — i.e. at or below a revision that was already committed when a mark at least TTL old was taken; a key whose
+newest change is younger than that survives. A version expires on its own (`compactKey`) only at or below the timeout
+revision and only if its key is not the one the worker remembers as alive; the only other way a version goes is as a
+part of the batch that removed its key's EXPIRED revision record (`expire_batch_only_own_versions`): then the worker
+remembers the key as gone and makes no call for the version. -/
+theorem young_survive (c : WCfg) (live gone : Bytes) (snap : List Rec) (r : Rec) (acts : List Act)
+    (h : expireStep c live gone snap r = some acts) (hnp : acts ≠ [.panic]) :
+    (r.rev = 0 → fromBE (r.val.take 8) ≤ c.timeout) ∧
+    (r.rev ≠ 0 → (r.key = gone ∧ acts = []) ∨ (r.rev ≤ c.timeout ∧ r.key ≠ live ∧ acts = [.del r.ik r.key])) := by
   unfold expireStep at h
-  rcases expiry_cases c live r with h0 | ⟨_, _, _, ⟨h0, _, _⟩ | ⟨h0, hr, _, h5⟩ | ⟨h0, _, _, _⟩ | ⟨h0, hr, h5, h6⟩⟩
+  rcases expiry_cases c live gone r with h0 | ⟨_, _, _, ⟨h0, _, _⟩ | ⟨h0, hr, _, h5⟩ | ⟨h0, _, _, _⟩ | ⟨h0, hr, h5⟩ |
+      ⟨h0, hr, h5, h6, _⟩⟩
   · rw [h0] at h; cases h
   · rw [h0] at h; exact absurd (Option.some.inj h).symm hnp
   · exact ⟨fun _ => h5, fun hne => absurd hr hne⟩
   · rw [h0] at h; cases h
-  · exact ⟨fun h0 => absurd h0 hr, fun _ => ⟨h5, h6⟩⟩
+  · rw [h0] at h; exact ⟨fun h0 => absurd h0 hr, fun _ => .inl ⟨h5, (Option.some.inj h).symm⟩⟩
+  · rw [h0] at h; exact ⟨fun h0 => absurd h0 hr, fun _ => .inr ⟨h5, h6, (Option.some.inj h).symm⟩⟩
+
+/-- The expiry batch is made only at a revision record that names a revision at or below the timeout revision, and
+it names nothing but that record and versions of the SAME raw key the snapshot shows. -/
+theorem expire_batch_only_own_versions (c : WCfg) (live gone : Bytes) (snap : List Rec) (r : Rec)
+    (ik v : Bytes) (vers : List Bytes) (raw : Bytes) (acts : List Act)
+    (h : expireStep c live gone snap r = some acts) (ha : .expire ik v vers raw ∈ acts) :
+    r.rev = 0 ∧ fromBE (r.val.take 8) ≤ c.timeout ∧ isEventKey c r.key = true ∧
+    ik = r.ik ∧ v = r.val ∧ raw = r.key ∧
+    ∀ x ∈ vers, ∃ w ∈ snap, w.key = r.key ∧ w.rev ≠ 0 ∧ w.ik = x := by
+  unfold expireStep at h
+  rcases expiry_cases c live gone r with h0 | ⟨_, _, hev, ⟨h0, _, _⟩ | ⟨h0, hr, _, h5⟩ | ⟨h0, _, _, _⟩ | ⟨h0, hr, h5⟩ |
+      ⟨h0, hr, h5, h6, _⟩⟩
+  · rw [h0] at h; cases h
+  · rw [h0] at h; cases h; simp at ha
+  · rw [h0] at h; cases h
+    simp only [List.mem_singleton, Act.expire.injEq] at ha
+    obtain ⟨e1, e2, e3, e4⟩ := ha
+    refine ⟨hr, h5, hev, e1, e2, e4, fun x hx => ?_⟩
+    rw [e3] at hx
+    obtain ⟨w, hw, hk, h0', _, e⟩ := mem_versionsOf.1 hx
+    exact ⟨w, hw, hk, h0', e⟩
+  · rw [h0] at h; cases h
+  · rw [h0] at h; cases h; simp at ha
+  · rw [h0] at h; cases h; simp at ha
 
 /-- An Event whose newest change is younger than the TTL keeps ALL its versions: when its revision record `i` names
 a revision above the timeout revision, the expiry step does nothing to `i` whatever the worker remembered before,
 the worker then remembers the key (`expiry … = .noLive`: `passLoop` goes on with `live = i.key`), and with the
-key remembered the expiry step produces no action for any version of that key — whatever the version's revision,
-at or below the timeout revision included. -/
+key remembered (and not the gone one: `goneEventRawKey` is only ever set at a revision record whose batch went
+through) the expiry step produces no action for any version of that key — whatever the version's revision, at or
+below the timeout revision included. -/
 theorem young_event_keeps_all_versions (c : WCfg) (i : Rec) (hi0 : i.rev = 0) (h8 : 8 ≤ i.val.length)
-    (hy : c.timeout < fromBE (i.val.take 8)) :
-    (∀ live, expireStep c live i = none) ∧
-    (c.supportTTL = false → c.timeout ≠ 0 → isEventKey c i.key = true → ∀ live, expiry c live i = .noLive) ∧
-    (∀ r : Rec, r.key = i.key → r.rev ≠ 0 → expireStep c i.key r = none) := by
+    (hy : c.timeout < fromBE (i.val.take 8)) (snap : List Rec) :
+    (∀ live gone, expireStep c live gone snap i = none) ∧
+    (c.supportTTL = false → c.timeout ≠ 0 → isEventKey c i.key = true → ∀ live gone, expiry c live gone i = .noLive) ∧
+    (∀ r : Rec, r.key = i.key → r.rev ≠ 0 → ∀ gone, gone ≠ i.key → expireStep c i.key gone snap r = none) := by
   refine ⟨?_, ?_, ?_⟩
-  · intro live
+  · intro live gone
     unfold expireStep
-    rcases expiry_cases c live i with h0 | ⟨_, _, _, ⟨h0, _, h⟩ | ⟨h0, _, _, h⟩ | ⟨h0, _, _, _⟩ | ⟨h0, h, _, _⟩⟩
+    rcases expiry_cases c live gone i with h0 | ⟨_, _, _, ⟨h0, _, h⟩ | ⟨h0, _, _, h⟩ | ⟨h0, _, _, _⟩ | ⟨h0, h, _⟩ |
+        ⟨h0, h, _, _⟩⟩
     · rw [h0]
     · omega
     · omega
     · rw [h0]
     · exact absurd hi0 h
-  · intro hs hT hk live
+    · exact absurd hi0 h
+  · intro hs hT hk live gone
     unfold expiry
     rw [if_neg (by simp [hs, hT]), if_pos hk, if_pos (by simp [hi0]), if_neg (by omega), if_neg (by omega)]
-  · intro r hk hr
+  · intro r hk hr gone hg
     unfold expireStep
-    rcases expiry_cases c i.key r with h0 | ⟨_, _, _, ⟨h0, h, _⟩ | ⟨h0, h, _, _⟩ | ⟨h0, h, _, _⟩ | ⟨h0, _, _, h⟩⟩
+    rcases expiry_cases c i.key gone r with h0 | ⟨_, _, _, ⟨h0, h, _⟩ | ⟨h0, h, _, _⟩ | ⟨h0, h, _, _⟩ | ⟨h0, _, h⟩ |
+        ⟨h0, _, _, h, _⟩⟩
     · rw [h0]
     · exact absurd h hr
     · exact absurd h hr
     · exact absurd h hr
+    · exact absurd (hk ▸ h).symm hg
     · exact absurd hk h
 
-/-- Wholly: for an event key whose index record says "newest change at m ≤ timeout" and all of whose
-versions are ≤ m, one pass issues a delete for the index record and — unless the worker remembers the key as alive,
-which it does exactly when that delete of the index record returned an error
-(`KB.C07Expire.expired_index_failure_spares_versions`) — for every version. -/
-theorem expire_whole (c : WCfg) (hc : c.supportTTL = false) (hT : c.timeout ≠ 0) (live : Bytes)
-    (r : Rec) (hk : isEventKey c r.key = true) (m : Nat)
+/-- Wholly: for an event key whose index record says "newest change at m ≤ timeout", one pass makes ONE call at the
+index record — a write batch naming the record (compare-and-delete) and every version of the key the snapshot shows —
+and no further call for the versions when that batch went through (the key is the gone one); when it returned an
+error the worker remembers the key as alive and none of its versions expires
+(`KB.C07Expire.expired_index_failure_spares_versions`). A version of an event key that is neither gone nor alive
+(its revision record was not seen by this worker) and lies at or below `m` is deleted on its own, as before. -/
+theorem expire_whole (c : WCfg) (hc : c.supportTTL = false) (hT : c.timeout ≠ 0) (live gone : Bytes)
+    (snap : List Rec) (r : Rec) (hk : isEventKey c r.key = true) (m : Nat)
     (hidx : r.rev = 0 → 8 ≤ r.val.length ∧ fromBE (r.val.take 8) = m) (hver : r.rev ≠ 0 → r.rev ≤ m)
     (hm : m ≤ c.timeout) :
-    (r.rev = 0 → expireStep c live r = some [.delcur r.ik r.val r.key]) ∧
-    (r.rev ≠ 0 → r.key ≠ live → expireStep c live r = some [.del r.ik r.key]) := by
+    (r.rev = 0 → expireStep c live gone snap r = some [.expire r.ik r.val (versionsOf r.key snap) r.key] ∧
+      ∀ w ∈ snap, w.key = r.key → w.rev ≠ 0 → w.rev < 2 ^ 64 - 1 → w.ik ∈ versionsOf r.key snap) ∧
+    (r.rev ≠ 0 → r.key = gone → expireStep c live gone snap r = some []) ∧
+    (r.rev ≠ 0 → r.key ≠ gone → r.key ≠ live → expireStep c live gone snap r = some [.del r.ik r.key]) := by
   have h1 : ¬ (c.supportTTL || c.timeout == 0) = true := by
     simp [hc, hT]
-  constructor
+  refine ⟨?_, ?_, ?_⟩
   · intro hr
     obtain ⟨hl, hv⟩ := hidx hr
+    refine ⟨?_, fun w hw h1' h2 h3 => mem_versionsOf.2 ⟨w, hw, h1', h2, h3, rfl⟩⟩
     unfold expireStep expiry
     rw [if_neg h1, if_pos hk, if_pos (by simp [hr]), if_neg (by omega), if_pos (by omega)]
-  · intro hr hl
+  · intro hr hg
+    unfold expireStep expiry
+    rw [if_neg h1, if_pos hk, if_neg (by simp [hr]), if_pos (by simp [hg])]
+  · intro hr hg hl
     have := hver hr
     unfold expireStep expiry
-    rw [if_neg h1, if_pos hk, if_neg (by simp [hr]), if_pos (by simp [hl]; omega)]
+    rw [if_neg h1, if_pos hk, if_neg (by simp [hr]), if_neg (by simp [hg]), if_pos (by simp [hl]; omega)]
 
-/-- Expired records produce no read result and no other action: the worker performs the delete call(s) `acts` and
-`continue`s with `prev` unchanged (the record is neither emitted nor carried as `prev`). -/
-theorem expired_not_emitted (c : WCfg) (mask : Nat → DelOutcome) (p : Prev) (live : Bytes) (st : CompState)
-    (r : Rec) (rs : List Rec) (acts : List Act) (h : expireStep c live r = some acts) :
-    ∃ live', passLoop c mask p live st (r :: rs) =
-      (acts ++ (passLoop c mask p live' (runDeletes mask st acts) rs).1,
-       (passLoop c mask p live' (runDeletes mask st acts) rs).2) := by
+/-- Expired records produce no read result and no other action: the worker performs the call `acts` (none for a
+version of the gone key) and `continue`s with `prev` unchanged (the record is neither emitted nor carried as `prev`). -/
+theorem expired_not_emitted (c : WCfg) (mask : Nat → DelOutcome) (snap : List Rec) (p : Prev) (live gone : Bytes)
+    (st : CompState) (r : Rec) (rs : List Rec) (acts : List Act) (h : expireStep c live gone snap r = some acts) :
+    ∃ live' gone', passLoop c mask snap p live gone st (r :: rs) =
+      (acts ++ (passLoop c mask snap p live' gone' (runActs mask st acts) rs).1,
+       (passLoop c mask snap p live' gone' (runActs mask st acts) rs).2) := by
   unfold expireStep at h
   rw [passLoop_cons]
-  cases he : expiry c live r with
-  | panic => rw [he] at h; cases h; exact ⟨live, rfl⟩
-  | idx => rw [he] at h; cases h; exact ⟨_, rfl⟩
-  | ver => rw [he] at h; cases h; exact ⟨live, rfl⟩
+  cases he : expiry c live gone r with
+  | panic => rw [he] at h; cases h; exact ⟨live, gone, rfl⟩
+  | idx => rw [he] at h; cases h; exact ⟨_, _, rfl⟩
+  | gone => rw [he] at h; cases h; exact ⟨live, gone, rfl⟩
+  | ver => rw [he] at h; cases h; exact ⟨live, gone, rfl⟩
   | noLive => rw [he] at h; cases h
   | no => rw [he] at h; cases h
 
@@ -162,9 +207,14 @@ def exKey : Bytes := eventsDir [47, 114, 101, 103, 105, 115, 116, 114, 121] ++ [
 def exIdxOld : Rec := { key := exKey, rev := 0, val := be64 4, ik := encode exKey 0 }
 def exVer : Rec := { key := exKey, rev := 3, val := [1], ik := encode exKey 3 }
 def exIdxYoung : Rec := { key := exKey, rev := 0, val := be64 9, ik := encode exKey 0 }
-example : expireStep exCfg [] exIdxOld = some [.delcur exIdxOld.ik exIdxOld.val exKey] := by decide
-example : expireStep exCfg [] exVer = some [.del exVer.ik exKey] := by decide
-example : expireStep exCfg exKey exVer = none := by decide
+/-- the batch at the expired revision record names the record and the version the snapshot shows -/
+example : expireStep exCfg [] [] [exIdxOld, exVer] exIdxOld =
+    some [.expire exIdxOld.ik exIdxOld.val [exVer.ik] exKey] := by decide
+/-- the version: no call when the key went as a whole, left alone when the key is remembered as alive, deleted on its
+own when the worker remembers neither -/
+example : expireStep exCfg [] exKey [exIdxOld, exVer] exVer = some [] := by decide
+example : expireStep exCfg [] [] [exIdxOld, exVer] exVer = some [.del exVer.ik exKey] := by decide
+example : expireStep exCfg exKey [] [exIdxOld, exVer] exVer = none := by decide
 example : exIdxYoung.rev = 0 ∧ 8 ≤ exIdxYoung.val.length ∧ exCfg.timeout < fromBE (exIdxYoung.val.take 8) ∧
     exCfg.supportTTL = false ∧ exCfg.timeout ≠ 0 ∧ isEventKey exCfg exIdxYoung.key = true := by decide
 example : isEventKey exCfg exVer.key = true ∧ (exVer.rev ≠ 0 → exVer.rev ≤ 4) ∧ 4 ≤ exCfg.timeout := by decide
@@ -177,6 +227,7 @@ end KB.C17
 #print axioms KB.C17.lookalike_never_expires
 #print axioms KB.C17.timeout_rev_old
 #print axioms KB.C17.young_survive
+#print axioms KB.C17.expire_batch_only_own_versions
 #print axioms KB.C17.young_event_keeps_all_versions
 #print axioms KB.C17.expire_whole
 #print axioms KB.C17.expired_not_emitted
